@@ -174,6 +174,6 @@ package server
 //@ loop 1 invariant len(ids) >= len(elems) - (rangeindex + 1)
 //@ call MessageToPublish#1 witness orig = at(iter, msg.MessageExpiry)
 //@ call MessageToPublish#1 witness waited = now - v.At
-//@ call MessageToPublish#1 assert [C12] (version == 5 && at(iter, msg.MessageExpiry) != 0) ==> int(msg.MessageExpiry) == fwdExpiry(at(iter, msg.MessageExpiry), now - v.At) && 1 <= msg.MessageExpiry && msg.MessageExpiry <= at(iter, msg.MessageExpiry)
+//@ call MessageToPublish#1 assert [C12] (version == 5 && at(iter, msg.MessageExpiry) != 0 && now - v.At < 4294967296000000000) ==> int(msg.MessageExpiry) == fwdExpiry(at(iter, msg.MessageExpiry), now - v.At) && 1 <= msg.MessageExpiry && msg.MessageExpiry <= at(iter, msg.MessageExpiry)
 //@ call MessageToPublish#1 assert [C12] !(version == 5 && at(iter, msg.MessageExpiry) != 0) ==> msg.MessageExpiry == at(iter, msg.MessageExpiry)
 //@ call MessageToPublish#1 assert [C12] now >= v.At
